@@ -478,10 +478,11 @@ class State:
 class Frame:
     _uid = itertools.count()
 
-    def __init__(self, func, ft, stack):
+    def __init__(self, func, ft, stack, depth=None):
         self.func = func
         self.ft = ft
         self.stack = stack
+        self.depth = len(stack) if depth is None else depth   # inlining depth: frames of nested defs do not count (they are part of their definer)
         self.uid = next(Frame._uid)
         self.callvals = {}
 
@@ -634,7 +635,7 @@ class Interp:
             if len(callees) != 1 or not resolved:
                 continue
             callee = callees[0]
-            depth = len(fr.stack)
+            depth = fr.depth
             if hasattr(self.inline, "__dict__"):
                 self.inline.caller = fr.func   # the policy may depend on who calls
             if depth >= self.max_depth + 2 or not (getattr(callee, "parent", None) is not None or (depth < self.max_depth and self.inline(call, callee, depth))):
@@ -705,7 +706,8 @@ class Interp:
         cev = Call(ast.unparse(call.func), [callee.qualname], args, call, fr.func, fr.stack, True, recv)
         st.trace.append(cev)
         saved_env = st.env
-        nfr = Frame(callee, self.types.ftypes(callee), fr.stack + ((fr.func.loc(call), callee.qualname),))
+        nfr = Frame(callee, self.types.ftypes(callee), fr.stack + ((fr.func.loc(call), callee.qualname),),
+                    depth=fr.depth if getattr(callee, "parent", None) is not None else fr.depth + 1)
         env = dict(saved_env) if getattr(callee, "parent", None) is not None else {}   # a nested def sees the locals of its definer
         for p in callee.params + callee.kwonly:
             if p in args:
@@ -808,21 +810,27 @@ class Interp:
         return args
 
     def _pair_select(self, s):
-        """`x = (A, B)[bool(c)]` / `(A, B)[c]` with c a comparison: the conditional expression `B if c else A`, provided A and B
-        are literals whose evaluation has no effect (so evaluating only one of them changes nothing).  -> statement or None."""
+        """`x = T[bool(c)]` / `T[c]` with c a comparison (T a pair written in place, a local or a module-level table): the
+        conditional expression `T[1] if c else T[0]`, since True == 1 and False == 0 as an index.  T must be free of calls, so
+        that evaluating it in only one branch changes nothing.  -> statement or None."""
         v = s.value
-        if not (isinstance(v, ast.Subscript) and isinstance(v.value, (ast.Tuple, ast.List)) and len(v.value.elts) == 2):
+        if not isinstance(v, ast.Subscript) or isinstance(v.slice, ast.Slice):
             return None
         c = v.slice
         if isinstance(c, ast.Call) and isinstance(c.func, ast.Name) and c.func.id == "bool" and len(c.args) == 1 and not c.keywords:
             c = c.args[0]
         elif not (isinstance(c, (ast.Compare, ast.BoolOp)) or (isinstance(c, ast.UnaryOp) and isinstance(c.op, ast.Not))):
             return None
-        if any(isinstance(n, (ast.Call, ast.NamedExpr, ast.Await, ast.Yield)) for x in v.value.elts for n in ast.walk(x)):
+        if any(isinstance(n, (ast.Call, ast.NamedExpr, ast.Await, ast.Yield)) for n in ast.walk(v.value)):
             return None
         memo = self.__dict__.setdefault("_pair_memo", {})
         if id(s) not in memo:
-            ife = ast.copy_location(ast.IfExp(test=c, body=v.value.elts[1], orelse=v.value.elts[0]), v)
+            if isinstance(v.value, (ast.Tuple, ast.List)) and len(v.value.elts) == 2:
+                hi, lo = v.value.elts[1], v.value.elts[0]
+            else:
+                hi = ast.copy_location(ast.Subscript(value=v.value, slice=ast.copy_location(ast.Constant(1), v), ctx=ast.Load()), v)
+                lo = ast.copy_location(ast.Subscript(value=v.value, slice=ast.copy_location(ast.Constant(0), v), ctx=ast.Load()), v)
+            ife = ast.copy_location(ast.IfExp(test=c, body=hi, orelse=lo), v)
             s2 = ast.Return(value=ife) if isinstance(s, ast.Return) else ast.Assign(targets=s.targets, value=ife, type_comment=None)
             memo[id(s)] = (s, ast.copy_location(s2, s))
         return memo[id(s)][1]
@@ -853,9 +861,11 @@ class Interp:
                 va, vb = self.eval(s.value.body, st, fr), self.eval(s.value.orelse, st, fr)
             finally:
                 self._quiet -= 1
-            if (isinstance(va, (BoundV, FuncV)) and isinstance(vb, (BoundV, FuncV))) or (isinstance(va, DictV) and isinstance(vb, DictV)):
+            both_members = isinstance(va, EnumSet) and isinstance(vb, EnumSet) and va.single() is not None and vb.single() is not None and va.single() != vb.single()
+            if (isinstance(va, (BoundV, FuncV)) and isinstance(vb, (BoundV, FuncV))) or (isinstance(va, DictV) and isinstance(vb, DictV)) or both_members:
                 # `f = self.a if cond else self.b`: which code runs later depends on the condition -- one path each
-                # (likewise two tables of keyword arguments: which call is made later depends on the condition)
+                # (likewise two tables of keyword arguments: which call is made later depends on the condition; and two
+                # different members of an enum: `state = A if c else B` is a transition chosen by c)
                 outs = []
                 for st1, truth, forked in self.branch(s.value.test, st, fr):
                     s2 = ast.copy_location(ast.Assign(targets=s.targets, value=(s.value.body if truth else s.value.orelse), type_comment=None), s)
@@ -1110,9 +1120,27 @@ class Interp:
                         names.add(v.id)
         return names, attrs
 
-    def _callee_write_attrs(self, stmts, fr):
+    def _callee_write_attrs(self, stmts, fr, elem=None):
+        """Attributes the in-package callees of `stmts` may write.  `elem` = (loop variable name, class of the elements by value):
+        a method call on the loop variable that the static types could not resolve is resolved by that class."""
         attrs = set()
-        for f in self.eff.reachable_from_stmts(fr.func, stmts, precise=False):
+        if elem is not None and elem[1]:
+            inside = {id(n) for s0 in stmts for n in ast.walk(s0)}
+            roots = []
+            for cs in self.eff.calls_of(fr.func):
+                if id(cs.node) not in inside:
+                    continue
+                fn = cs.node.func if isinstance(cs.node, ast.Call) else None
+                if not cs.resolved and isinstance(fn, ast.Attribute) and isinstance(fn.value, ast.Name) and fn.value.id == elem[0]:
+                    m = self.repo.lookup_method(elem[1], fn.attr)
+                    if m is not None:
+                        roots.append(m)
+                        continue
+                roots.extend(cs.callees)
+            funcs = self.eff.reachable(roots, False)
+        else:
+            funcs = self.eff.reachable_from_stmts(fr.func, stmts, precise=False)
+        for f in funcs:
             for e in self.eff.of(f):
                 if e.kind in ("store", "mut", "del"):
                     attrs.add(e.attr)
@@ -1341,7 +1369,9 @@ class Interp:
         for t in ast.walk(s.target):
             if isinstance(t, ast.Name):
                 names.add(t.id)
-        attrs |= self._callee_write_attrs(s.body, fr)
+        et0 = coll.typ[1] if isinstance(coll, (Unk, CollV)) and coll.typ and coll.typ[0] in ("list", "set") and coll.typ[1] else None
+        elem = (s.target.id, et0[1]) if isinstance(s.target, ast.Name) and et0 and et0[0] == "obj" and fr.ft.type_of(s.iter) is None else None
+        attrs |= self._callee_write_attrs(s.body, fr, elem)
         # a local that aliases a model object's container and is only *mutated* in the body stays that alias: what changes is
         # the attribute it denotes
         rebound = {x.id for b in s.body + s.orelse for n in ast.walk(b) if isinstance(n, (ast.Assign, ast.AugAssign, ast.AnnAssign, ast.For))
@@ -1806,14 +1836,15 @@ class Interp:
             self._quiet -= 1
             st.env = saved
 
-    def _call_pure_def(self, fn, call, st, fr):
+    def _call_pure_def(self, fn, call, st, fr, callee=None):
         """A nested def with loops / early returns called where statements cannot be hoisted (a comprehension condition, a
         filter predicate): interpreted on a copy of the state; the value counts only if the body has no effect on the heap and
         every path returns the same constant.  -> value or None."""
         if getattr(self, "_pure_depth", 0) >= 2:
             return None
-        from .loader import FuncInfo
-        callee = FuncInfo(fn.name, fn, fr.func.cls, fr.func.module, parent=fr.func)
+        if callee is None:
+            from .loader import FuncInfo
+            callee = FuncInfo(fn.name, fn, fr.func.cls, fr.func.module, parent=fr.func)
         st0 = st.copy()
         n0 = len(st0.trace)
         self._pure_depth = getattr(self, "_pure_depth", 0) + 1
@@ -2391,6 +2422,9 @@ class Interp:
             if all(isinstance(c, ListV) for c in cols):
                 n = min(len(c.items) for c in cols)
                 return ListV([ListV([c.items[i] for c in cols], True, "tuple") for i in range(n)], True, "list")
+        gl = self._getter_lambda(e)
+        if gl is not None:
+            return FuncV(gl)
         if fname == "next" and len(e.args) in (1, 2) and not e.keywords and isinstance(e.args[0], (ast.GeneratorExp, ast.Call)):
             # next(<generator over a known table>, default): the first element that passes, else the default
             seq = self._eval_iterable(e.args[0], st, fr) if isinstance(e.args[0], ast.GeneratorExp) or \
@@ -2499,6 +2533,15 @@ class Interp:
             return Unk(ast.unparse(e), ("prim", "bool"))
         # generic call: evaluate args for effects, emit event
         callees, resolved = self._resolve(e, st, fr)
+        if resolved and len(callees) == 1 and getattr(callees[0], "parent", None) is None and fr.depth < self.max_depth:
+            # a helper the policy would follow, called where statements cannot be hoisted (a comprehension condition, a lambda):
+            # interpreted on a copy; its value counts if it has no effect and every path agrees
+            if hasattr(self.inline, "__dict__"):
+                self.inline.caller = fr.func
+            if self.inline(e, callees[0], fr.depth):
+                r = self._call_pure_def(None, e, st, fr, callee=callees[0])
+                if r is not None:
+                    return r
         argvals = {}
         for i, a in enumerate(e.args):
             argvals[i] = self.eval(a, st, fr, effects)
@@ -2553,11 +2596,38 @@ class Interp:
         t = fr.ft.type_of(e)
         return self.value_for_type(f"{ast.unparse(f)}()~{next(self._fresh)}", t) if t else Unk(f"{ast.unparse(f)}()~{next(self._fresh)}")
 
+    def _getter_lambda(self, f):
+        """`attrgetter("a")` / `operator.itemgetter(0)` written out as the lambda it stands for (None for anything else)."""
+        if not (isinstance(f, ast.Call) and not f.keywords and f.args and ast.unparse(f.func) in ("attrgetter", "operator.attrgetter", "itemgetter", "operator.itemgetter")):
+            return None
+        memo = self.__dict__.setdefault("_lam_memo", {})
+        if id(f) not in memo:
+            x = "__g%d" % (f.lineno * 1000 + f.col_offset)
+            attr = ast.unparse(f.func).endswith("attrgetter")
+            parts = []
+            for a in f.args:
+                if attr and isinstance(a, ast.Constant) and isinstance(a.value, str) and all(p.isidentifier() for p in a.value.split(".")):
+                    e = ast.Name(id=x, ctx=ast.Load())
+                    for p in a.value.split("."):
+                        e = ast.Attribute(value=e, attr=p, ctx=ast.Load())
+                    parts.append(e)
+                elif not attr:
+                    parts.append(ast.Subscript(value=ast.Name(id=x, ctx=ast.Load()), slice=a, ctx=ast.Load()))
+                else:
+                    return None
+            body = parts[0] if len(parts) == 1 else ast.Tuple(elts=parts, ctx=ast.Load())
+            lam = ast.Lambda(args=ast.arguments(posonlyargs=[], args=[ast.arg(arg=x)], kwonlyargs=[], kw_defaults=[], defaults=[]), body=body)
+            memo[id(f)] = (f, ast.fix_missing_locations(ast.copy_location(lam, f)))
+        return memo[id(f)][1]
+
     def _as_lambda(self, f, st):
         """The function argument of map/filter as a one-parameter lambda: a lambda as written, or `lambda x: f(x)` for a
         local function value (nested def, alias of a lambda)."""
         if isinstance(f, ast.Lambda):
             return f
+        g = self._getter_lambda(f)
+        if g is not None:
+            return g
         if isinstance(f, ast.Name) and isinstance(st.env.get(f.id), FuncV):
             memo = self.__dict__.setdefault("_lam_memo", {})
             if id(f) not in memo:
